@@ -1,8 +1,8 @@
 CONSTANT MaxMods = 3
 CONSTANT MinMods = 2
 CONSTANT Spells <- AllSpells
-CONSTANT Places <- AllPlaces
-CONSTANT Layouts <- NoSub
+CONSTANT Places <- OneEarly
+CONSTANT Layouts <- AllLayouts
 INIT Init
 NEXT Next
 INVARIANT EmitCase
